@@ -63,21 +63,22 @@ ReplayLW(a, prog) ==
 (* the documented range as a three-valued verdict on one value *)
 LoV(fd, v) ==
   CASE fd.lok = "none"     -> "ok"
-    [] fd.lok \in {"closed", "closed-nz"} -> IF v < fd.lo THEN "bad" ELSE "ok"
-    [] fd.lok = "open"     -> IF v <= fd.lo THEN "bad" ELSE "ok"
-    [] fd.lok = "atunspec" -> IF v < fd.lo THEN "bad" ELSE IF v = fd.lo THEN "any" ELSE "ok"
-    [] fd.lok = "undoc"    -> IF v <= fd.lo THEN "any" ELSE "ok"
-    [] fd.lok = "hole"     -> IF v > fd.lo /\ v < fd.hi THEN "bad" ELSE "ok"
+    [] fd.lok \in {"closed", "closed-nz"} -> IF Lt(v, fd.lo) THEN "bad" ELSE "ok"
+    [] fd.lok = "open"     -> IF Le(v, fd.lo) THEN "bad" ELSE "ok"
+    [] fd.lok = "atunspec" -> IF Lt(v, fd.lo) THEN "bad" ELSE IF At(v, fd.lo) THEN "any" ELSE "ok"
+    [] fd.lok = "undoc"    -> IF Le(v, fd.lo) THEN "any" ELSE "ok"
+    [] fd.lok = "hole"     -> IF Gt(v, fd.lo) /\ Lt(v, fd.hi) THEN "bad" ELSE "ok"
 HiV(fd, v) ==
   CASE fd.hik = "none"     -> "ok"
-    [] fd.hik = "closed"   -> IF v > fd.hi THEN "bad" ELSE "ok"
-    [] fd.hik = "open"     -> IF v >= fd.hi THEN "bad" ELSE "ok"
-    [] fd.hik = "atunspec" -> IF v > fd.hi THEN "bad" ELSE IF v = fd.hi THEN "any" ELSE "ok"
-    [] fd.hik = "undoc"    -> IF v >= fd.hi THEN "any" ELSE "ok"
+    [] fd.hik = "closed"   -> IF Gt(v, fd.hi) THEN "bad" ELSE "ok"
+    [] fd.hik = "open"     -> IF Ge(v, fd.hi) THEN "bad" ELSE "ok"
+    [] fd.hik = "atunspec" -> IF Gt(v, fd.hi) THEN "bad" ELSE IF At(v, fd.hi) THEN "any" ELSE "ok"
+    [] fd.hik = "undoc"    -> IF Ge(v, fd.hi) THEN "any" ELSE "ok"
 FieldV(fd, vv) ==
-  LET v == IF vv = NegZero THEN (IF fd.lok = "closed-nz" THEN 0 - 1 ELSE 0) ELSE vv     \* -0.0 is 0
+  LET v == IF vv = NegZero /\ fd.lok = "closed-nz" THEN TinyNeg ELSE vv     \* -0.0 is 0 (deviation: counted negative)
       l == LoV(fd, v)  h == HiV(fd, v) IN
-  IF l = "bad" \/ h = "bad" THEN "bad" ELSE IF l = "any" \/ h = "any" THEN "any" ELSE "ok"
+  IF fd.cush /\ Sub(v) # 0 THEN "any"                  \* infinitesimal probe inside a documented epsilon cushion
+  ELSE IF l = "bad" \/ h = "bad" THEN "bad" ELSE IF l = "any" \/ h = "any" THEN "any" ELSE "ok"
 
 \* named deviations (known findings) relax exactly one documented bound to what the code enforces
 Relax(a, fd, devs) ==
@@ -97,7 +98,7 @@ Relax(a, fd, devs) ==
 \* relations between parameters
 CrossV(a, x) ==
   IF Doc[a].cross = "countvec"
-    THEN IF x.v[1] <= x.v[2] /\ Num(x.v[3]) <= Num(x.v[4]) THEN "ok" ELSE "bad"
+    THEN IF x.v[1] <= x.v[2] /\ LeVV(x.v[3], x.v[4]) THEN "ok" ELSE "bad"
     ELSE "ok"
 
 \* fields the user never wrote hold the builder's defaults, which are valid by definition
@@ -111,14 +112,16 @@ Expected(a, x, devs) ==
 
 -----------------------------------------------------------------------------
 (* boundary grid of one field: below / at / just inside / far inside every documented bound *)
+Fine0(fd) == IF 0 \in fd.skip THEN {} ELSE {NegZero, TinyNeg, TinyPos}      \* -0.0 and -+tiny next to a bound at 0
+Fine1    == {OneMinus, OnePlus}                                             \* 1 -+ tiny next to a bound at 1
 GridLo(fd) ==
   IF fd.lok \in {"none"} THEN {}
-  ELSE IF fd.ty = "real" THEN {fd.lo - M, fd.lo - 1, fd.lo, fd.lo + 1} \cup (IF fd.lo = 0 /\ 0 \notin fd.skip THEN {NegZero} ELSE {})
+  ELSE IF fd.ty = "real" THEN {fd.lo - M, fd.lo - 1, fd.lo, fd.lo + 1} \cup (IF fd.lo = 0 THEN Fine0(fd) ELSE {})
   ELSE {y \in {fd.lo - 2, fd.lo - 1, fd.lo, fd.lo + 1} : y >= 0}
 GridHi(fd) ==
-  IF fd.lok = "hole" THEN {(fd.lo + fd.hi) \div 2, fd.hi - 1, fd.hi, fd.hi + 1, fd.hi + M}
+  IF fd.lok = "hole" THEN {(fd.lo + fd.hi) \div 2, fd.hi - 1, fd.hi, fd.hi + 1, fd.hi + M} \cup (IF fd.hi = M THEN Fine1 ELSE {})
   ELSE IF fd.hik = "none" THEN {}
-  ELSE IF fd.ty = "real" THEN {fd.hi - 1, fd.hi, fd.hi + 1, fd.hi + M}
+  ELSE IF fd.ty = "real" THEN {fd.hi - 1, fd.hi, fd.hi + 1, fd.hi + M} \cup (IF fd.hi = M THEN Fine1 ELSE {})
   ELSE {fd.hi - 1, fd.hi, fd.hi + 1}
 Grid(fd) == (GridLo(fd) \cup GridHi(fd) \cup fd.typ) \ fd.skip
 
@@ -218,6 +221,11 @@ InvTable ==
        /\ fd.hik \in {"closed", "open", "atunspec"} => (\E x \in g : HiV(fd, x) = "bad") /\ (\E x \in g : HiV(fd, x) = "ok")
        /\ fd.lok \in {"atunspec", "undoc"} /\ fd.skip = {} => \E x \in g : FieldV(fd, x) = "any"
        /\ \A x \in fd.typ : FieldV(fd, x) = "ok"
+       \* the infinitesimal probes exist only for bounds at 0 and 1: no real bound may sit anywhere else
+       /\ fd.ty = "real" /\ fd.lok # "none" => fd.lo = 0
+       /\ fd.ty = "real" /\ (fd.hik # "none" \/ fd.lok = "hole") => fd.hi = M
+       /\ fd.ty = "real" /\ fd.lok # "none" /\ 0 \notin fd.skip => {TinyNeg, TinyPos} \subseteq g
+       /\ fd.ty = "real" /\ (fd.hik # "none" \/ fd.lok = "hole") => {OneMinus, OnePlus} \subseteq g
        /\ \E s \in 1..NS(alg) : \E w \in PRange(Doc[alg].s[s].w) : w[1] = i /\ w[2] > 0      \* every field has a setter
   /\ \A s \in 1..NS(alg) : \A w \in PRange(Doc[alg].s[s].w) : w[1] \in 1..NF(alg) /\ w[2] \in 0..Doc[alg].s[s].na
   /\ Cardinality(CtorIdx(alg)) <= 1
